@@ -58,6 +58,102 @@ theorem eval_fresh_env (fuel : Nat) (node : Node N) (input : Option (Val N)) :
        | .ok (v, _) => .ok v
        | .error e => .error e) := rfl
 
+/-! ### histories, at full strength -/
+
+/-- **Full strength over one expression**: the outcomes of any history are, position by position, what each
+    input gives when evaluated alone on the untouched expression. -/
+theorem history_pointwise (fuel : Nat) (w : World N) (ds : List (Option (Val N))) :
+    (runHistory fuel w ds).1 = ds.map (evalTop fuel w.ast) := by
+  induction ds generalizing w with
+  | nil => rfl
+  | cons d ds ih =>
+    have h := ih w
+    simp only [runHistory, evalW, List.map_cons]
+    rw [h]
+
+/-- equal inputs at any two positions of any history give equal outcomes -/
+theorem history_equal_inputs (fuel : Nat) (w : World N) (ds : List (Option (Val N))) (i j : Nat)
+    (hi : i < ds.length) (hj : j < ds.length) (h : ds[i] = ds[j]) :
+    (runHistory fuel w ds).1[i]? = (runHistory fuel w ds).1[j]? := by
+  rw [history_pointwise]
+  simp [List.getElem?_map, List.getElem?_eq_getElem hi, List.getElem?_eq_getElem hj, h]
+
+/-- a history splits: what comes after a prefix is what it would be without the prefix -/
+theorem history_append (fuel : Nat) (w : World N) (xs ys : List (Option (Val N))) :
+    (runHistory fuel w (xs ++ ys)).1 = (runHistory fuel w xs).1 ++ (runHistory fuel w ys).1 := by
+  simp [history_pointwise]
+
+/-! ### several expressions in one process -/
+
+/-- a process holds several compiled expressions; an operation evaluates one of them on an input -/
+def runProcess (fuel : Nat) (ws : List (World N)) :
+    List (Nat × Option (Val N)) → List (Option (Except Err (Option (Val N)))) × List (World N)
+  | [] => ([], ws)
+  | (k, d) :: ops =>
+    match ws[k]? with
+    | none =>
+      let (os, ws2) := runProcess fuel ws ops
+      (none :: os, ws2)
+    | some w =>
+      let (o, w1) := evalW fuel w d
+      let (os, ws2) := runProcess fuel (ws.set k w1) ops
+      (some o :: os, ws2)
+
+/-- no operation of a process changes any of its expressions -/
+theorem process_worlds_unchanged (fuel : Nat) (ws : List (World N)) (ops : List (Nat × Option (Val N))) :
+    (runProcess fuel ws ops).2 = ws := by
+  induction ops generalizing ws with
+  | nil => rfl
+  | cons op ops ih =>
+    obtain ⟨k, d⟩ := op
+    unfold runProcess
+    cases hk : ws[k]? with
+    | none => simp [ih]
+    | some w =>
+      have hset : ws.set k w = ws := by
+        rcases List.getElem?_eq_some_iff.mp hk with ⟨hlt, hw⟩
+        rw [← hw]; exact List.set_getElem_self hlt
+      simp [evalW, hset, ih]
+
+/-- **Whatever any expression in the process has evaluated before**: each operation's outcome is what its
+    expression gives for its input on its own, whatever was interleaved. -/
+theorem process_pointwise (fuel : Nat) (ws : List (World N)) (ops : List (Nat × Option (Val N))) :
+    (runProcess fuel ws ops).1 = ops.map (fun op => (ws[op.1]?).map (fun w => evalTop fuel w.ast op.2)) := by
+  induction ops generalizing ws with
+  | nil => rfl
+  | cons op ops ih =>
+    obtain ⟨k, d⟩ := op
+    unfold runProcess
+    cases hk : ws[k]? with
+    | none => simp [ih, hk]
+    | some w =>
+      have hset : ws.set k w = ws := by
+        rcases List.getElem?_eq_some_iff.mp hk with ⟨hlt, hw⟩
+        rw [← hw]; exact List.set_getElem_self hlt
+      simp [evalW, hset, ih, hk]
+
+/-- dropping the operations on other expressions from a process leaves the outcomes of expression `k` as they were -/
+theorem process_other_expressions_irrelevant (fuel : Nat) (ws : List (World N)) (ops : List (Nat × Option (Val N)))
+    (k : Nat) :
+    ((runProcess fuel ws ops).1.zip ops).filterMap (fun p => if p.2.1 = k then some p.1 else none) =
+    (runProcess fuel ws (ops.filter (·.1 = k))).1 := by
+  rw [process_pointwise, process_pointwise]
+  induction ops with
+  | nil => rfl
+  | cons op ops ih =>
+    by_cases h : op.1 = k
+    · simp [h]
+      simpa using ih
+    · simp [h]
+      simpa using ih
+
+example : (runProcess (N := Int) 50
+    [{ ast := .numop .add (.num 1) (.path [.name "a"] false) }, { ast := .path [.name "a"] false }]
+    [(0, some (.obj [("a", .num 2)])), (1, some (.obj [("a", .num 5)])), (0, some (.obj [("a", .num 2)])), (2, none)]).1 =
+    [some (.ok (some (.num 3))), some (.ok (some (.num 5))), some (.ok (some (.num 3))), none] := by
+  rfl
+
+
 /-! ### regenerated facts -/
 
 /-- Every write through a field, element or pointer in the evaluator packages is accounted for by the *kind* of
